@@ -188,7 +188,8 @@ theorem procRun_request (m : Msg) (me t pr : Bytes) (hs : m.start = .request me 
     rcases ht with ⟨h1, h2⟩ | ⟨h1, _⟩
     · subst h1 h2; decide
     · simp [urlHostEmpty, h1]
-  simp only [eventsOf, hs, Start.events, List.cons_append, List.nil_append, List.append_assoc]
+  have hd : m.declared = m.body.declared := by simp [Msg.declared, Msg.bodiless, hs]
+  simp only [eventsOf, hd, hs, Start.events, List.cons_append, List.nil_append, List.append_assoc]
   simp only [procRun, procStep, serverStep, Bool.false_eq_true, if_false, List.append_nil]
   rw [procRun_append, procRun_headers_server]
   simp only [List.cons_append, List.nil_append, procRun, procStep, serverStep, Bool.false_eq_true, if_false, List.append_nil]
